@@ -67,6 +67,13 @@ inductive Micro (jo : JobObj) (sp : Sys) : Sys → Sys → Prop
       Micro jo sp s (apiUpdateJob s jo { jo with job := (sync sp jo).2.1, finalizer := (sync sp jo).2.2.1 }).1
   | updStatus (s : Sys) :
       Micro jo sp s (apiUpdateJobStatus s jo { jo with job := (sync sp jo).2.1 }).1
+  /-- the status write of `UpdateJobAndStatus` after a metadata write that succeeded: it is submitted
+  with the resourceVersion of the object `Update` returned -/
+  | updStatusOn (s s1 : Sys) (hs1 : s1 = (sync sp jo).1)
+      (hs : s = (apiUpdateJob s1 jo { jo with job := (sync sp jo).2.1, finalizer := (sync sp jo).2.2.1 }).1)
+      (hok : (apiUpdateJob s1 jo { jo with job := (sync sp jo).2.1, finalizer := (sync sp jo).2.2.1 }).2 = true) :
+      Micro jo sp s
+        (apiUpdateJobStatus s { jo with rv := updatedRv s jo } { jo with job := (sync sp jo).2.1 }).1
 
 inductive Micros (jo : JobObj) (sp : Sys) : Sys → Sys → Prop
   | refl (s : Sys) : Micros jo sp s s
@@ -314,6 +321,12 @@ def specWrite (cur : JobObj) (new : JobObj) (rv : Nat) : JobObj :=
 def statusWrite (cur : JobObj) (new : JobObj) (rv : Nat) : JobObj :=
   { cur with job := { cur.job with status := new.job.status }, rv := rv }
 
+/-- the object an `Update` of the pass produced is brought to the computed Job by the status write
+that follows it: it carries the computed metadata and the status of the cached Job -/
+theorem JobLe.of_specWrite {jo : JobObj} {newJob : Job} {fin : Bool} (h : JobLe jo.job newJob) (r : Nat) :
+    JobLe (specWrite jo { jo with job := newJob, finalizer := fin } r).job newJob :=
+  ⟨rfl, rfl, rfl, rfl, h.del, id, h.startTime, h.names⟩
+
 theorem apiUpdateJob_spec (s : Sys) (cached new : JobObj) :
     Frame s (apiUpdateJob s cached new).1 ∨
     (∃ cur, s.job = some cur ∧ cur.rv = cached.rv ∧
@@ -382,6 +395,58 @@ theorem apiUpdateJobStatus_spec (s : Sys) (cached new : JobObj) :
           · show some _ = some _; simp only [log, hf.rv, statusWrite]
           · show s0.jobEvs ++ _ = _; rw [hf.jobEvs]; simp only [log, hf.rv, statusWrite]
 
+/-- the cached Job IS the stored one whenever their resourceVersions agree (in the state `s1` the
+metadata write of the pass is issued in; follows from `Base.rvId`) -/
+def CachedIsCur (jo : JobObj) (s1 : Sys) : Prop := ∀ c, s1.job = some c → c.rv = jo.rv → c = jo
+
+/-- After a Job `Update` that returned without error (and the cached Job being the stored one if their
+resourceVersions agree): the stored object, if it is still there, is the cached Job with the written
+metadata, and the resourceVersion `Update` returned (`updatedRv`) is its own. -/
+theorem apiUpdateJob_ok_cur {s1 : Sys} {jo new : JobObj} (hid : CachedIsCur jo s1)
+    (hok : (apiUpdateJob s1 jo new).2 = true) :
+    ∀ c, (apiUpdateJob s1 jo new).1.job = some c →
+      c = specWrite jo new c.rv ∧ updatedRv (apiUpdateJob s1 jo new).1 jo = c.rv ∧ s1.job = some jo := by
+  intro c hc
+  have hu : updatedRv (apiUpdateJob s1 jo new).1 jo = c.rv := by unfold updatedRv; rw [hc]
+  suffices h : c = specWrite jo new c.rv ∧ s1.job = some jo from ⟨h.1, hu, h.2⟩
+  clear hu
+  revert hok hc
+  unfold apiUpdateJob
+  have hf := nextFault_frame s1
+  generalize nextFault s1 = r at hf
+  obtain ⟨f, s0⟩ := r
+  simp only at hf ⊢
+  by_cases h1 : isFailFault f = true
+  · rw [if_pos h1]; intro hok; cases hok
+  · rw [if_neg h1]
+    cases hj : s0.job with
+    | none => simp only; intro hok; cases hok
+    | some cur =>
+      simp only
+      have hjs : s1.job = some cur := by rw [← hf.job]; exact hj
+      by_cases hrv : cur.rv ≠ jo.rv
+      · rw [if_pos hrv]; intro hok; cases hok
+      · rw [if_neg hrv]
+        have hrv' : cur.rv = jo.rv := by simpa using hrv
+        have hcur : cur = jo := hid cur hjs hrv'
+        subst hcur
+        split
+        · rename_i hnoop
+          intro _ hc
+          simp only [log] at hc
+          rw [hj] at hc
+          cases hc
+          refine ⟨?_, hjs⟩
+          simp only [specWrite]
+          exact hnoop.symm
+        · split
+          · intro _ hc; simp only [log] at hc; cases hc
+          · intro _ hc
+            simp only [log, Option.some.injEq] at hc
+            subst hc
+            refine ⟨?_, hjs⟩
+            simp only [specWrite]
+
 theorem apiCreatePod_createPhase {sp s : Sys} (hcp : CreatePhase sp s) (jo : JobObj) (idx : PIndex) (retry : Int) :
     CreatePhase sp (apiCreatePod s jo idx retry).1 := by
   rcases apiCreatePod_spec s jo idx retry with h | h
@@ -430,6 +495,11 @@ theorem Micro.static {jo : JobObj} {sp s s' : Sys} (h : Micro jo sp s s') : Stat
     · exact h.1.static
   | updStatus =>
     rcases apiUpdateJobStatus_spec s jo { jo with job := (sync sp jo).2.1 } with h | ⟨c, _, _, h⟩
+    · exact h.toStatic
+    · exact h.static
+  | updStatusOn s1 _ _ _ =>
+    rcases apiUpdateJobStatus_spec s { jo with rv := updatedRv s jo } { jo with job := (sync sp jo).2.1 } with
+      h | ⟨c, _, _, h⟩
     · exact h.toStatic
     · exact h.static
 
